@@ -137,6 +137,30 @@ def params(fn: ast.AST) -> List[str]:
     return [x.arg for x in (a.posonlyargs + a.args)] + [x.arg for x in a.kwonlyargs]
 
 
+def bind_args(call: ast.Call, fn: ast.AST, skip_self: bool = False) -> Dict[str, Optional[ast.AST]]:
+    """Map the callee's parameter names to the argument expressions of `call` (positional then keyword); a parameter
+    left to its default maps to the default expression; `*args`/`**kw` at the call site make the binding unknown
+    (those parameters map to None)."""
+    a = fn.args
+    pos = [x.arg for x in (a.posonlyargs + a.args)]
+    if skip_self and pos:
+        pos = pos[1:]
+    out: Dict[str, Optional[ast.AST]] = {}
+    star = any(isinstance(x, ast.Starred) for x in call.args) or any(k.arg is None for k in call.keywords)
+    for p, v in zip(pos, call.args):
+        if isinstance(v, ast.Starred):
+            break
+        out[p] = v
+    for k in call.keywords:
+        if k.arg is not None:
+            out[k.arg] = k.value
+    dfl = param_defaults(fn)
+    for p in pos + [x.arg for x in a.kwonlyargs]:
+        if p not in out:
+            out[p] = None if star else dfl.get(p)
+    return out
+
+
 def param_defaults(fn: ast.AST) -> Dict[str, ast.AST]:
     a = fn.args
     pos = a.posonlyargs + a.args
